@@ -135,7 +135,7 @@ class C10(BaseCheck):
         roll = k.random()
         if roll < 0.2:
             return {'class': 'wire', 'fmt': k.choice(['zinc', 'json']), 'ver': k.choice(VERSIONS[1:]),
-                    'kind': k.choice(V3_KINDS), 'pos': k.choice(['gmeta', 'cmeta', 'cell', 'inlist', 'indict']),
+                    'kind': k.choice(V3_KINDS), 'pos': k.choice(['gmeta', 'cmeta', 'cell', 'inlist', 'indict', 'nested', 'nested-meta']),
                     'visit': [k.choice(VERSIONS[1:]) for _ in range(k.choice([0, 1, 2]))], 'ops': []}
         if roll < 0.3:
             return {'class': 'scalar', 'ver': k.choice(VERSIONS[1:]), 'kind': k.choice(V3_KINDS),
@@ -474,6 +474,13 @@ class C10(BaseCheck):
 
     def _zinc_doc(self, ver, kind, pos):
         val = self.ZINC_VAL[kind]
+        if pos in ('nested', 'nested-meta'):
+            # the declared version under test is the one of a grid nested in a 3.0 document
+            if pos == 'nested' or kind == 'grid':
+                inner = '<<ver:"%s"\nq\n%s\n>>' % (ver, val)
+            else:
+                inner = '<<ver:"%s" im:%s\nq\n1\n>>' % (ver, val)
+            return 'ver:"3.0"\na,b\n%s,2\n' % inner
         if pos == 'inlist':
             val = '[%s]' % val
         elif pos == 'indict':
@@ -485,6 +492,14 @@ class C10(BaseCheck):
 
     def _json_doc(self, ver, kind, pos):
         val = copy.deepcopy(self.JSON_VAL[kind])
+        if pos in ('nested', 'nested-meta'):
+            inner = {'meta': {'ver': ver}, 'cols': [{'name': 'q'}], 'rows': [{'q': 'n:1'}]}
+            if pos == 'nested':
+                inner['rows'][0]['q'] = val
+            else:
+                inner['meta']['im'] = val
+            return json.dumps({'meta': {'ver': '3.0'}, 'cols': [{'name': 'a'}, {'name': 'b'}],
+                               'rows': [{'a': inner, 'b': 'n:2'}]})
         if pos == 'inlist':
             val = [val]
         elif pos == 'indict':
@@ -534,8 +549,13 @@ class C10(BaseCheck):
             if not where:
                 viol = {'clause': 'reader-dropped', 'detail': {'fmt': fmt, 'version': ver, 'kind': kind, 'pos': pos, 'text': text,
                                                                'why': 'accepted document lost its 3.0-only value'}}
-            elif hs.Version(str(g.version)) != hs.Version(ver):
+            elif not pos.startswith('nested') and hs.Version(str(g.version)) != hs.Version(ver):
                 viol = {'clause': 'version-changed', 'detail': {'fmt': fmt, 'sent': ver, 'received': str(g.version)}}
+            elif pos.startswith('nested'):
+                inner = g[0].get('a')
+                if not isinstance(inner, hs.Grid) or hs.Version(str(inner.version)) != hs.Version(ver) or not grid_has_v3(hs, inner):
+                    viol = {'clause': 'reader-dropped', 'detail': {'fmt': fmt, 'version': ver, 'kind': kind, 'pos': pos, 'text': text,
+                                                                   'why': 'nested grid lost its version or its 3.0-only value'}}
         else:
             stats['fault.reader_refusal_%s' % fmt] = 1
             if fmt == 'zinc' and not isinstance(exc, hs.zincparser.ZincParseException):
